@@ -18,7 +18,8 @@ RULE = (
     ".dir objects loaded lazily at drawn directory nodes incl. the root; implicit parents, only with "
     "links=[copy] and delete on), a prior workspace = T after drawn edits (modify, delete, add nested file / empty "
     "nested directories, file->directory and directory->file replacement at any depth, remove subtree, "
-    "chmod, wipe), materialised as plain files or through a first index checkout with the same link "
+    "chmod, wipe; dangling symlinks and symlinks to files outside the workspace, at new paths, in place of "
+    "a target file or of a target directory with or without a hash), materialised as plain files or through a first index checkout with the same link "
     "type, link list (copy, hardlink, symlink, reflink+copy, hardlink+copy, symlink+copy; passed to "
     "apply or configured on the cache), cache class, delete on/off, relink, update_meta, state on/off, "
     "0-2 further cache storages registered at drawn target keys (a file's own key or a directory key; each "
@@ -48,6 +49,9 @@ ASSUMPTIONS = [
     "reporting clause is judged for that case: the statement promises the report, nothing about what follows",
     "nothing is asserted inside the subtree of an entry whose source is unavailable, nor (delete off) below "
     "a target file whose path is occupied by a non-empty prior directory",
+    "odd prior entries are dangling symlinks (documented in safe_walk/build_entries) and symlinks to outside "
+    "files, placed anywhere (new paths, target files, target directories with or without a hash); symlinks to "
+    "directories are not generated: the quantifier is over trees of files and directories",
     "files inside lazily loaded .dir objects carry no isexec flag and such objects hold no empty directories",
 ]
 
@@ -66,16 +70,22 @@ class Model:
         self.files = {}
         self.execs = set()
         self.dirs = set()
+        # odd prior-workspace entries: key -> None (dangling symlink) | bytes (symlink to a file that
+        # lives outside the workspace and holds these bytes). Never part of a target.
+        self.links = {}
 
     def copy(self):
         m = Model()
         m.files = dict(self.files)
         m.execs = set(self.execs)
         m.dirs = set(self.dirs)
+        m.links = dict(self.links)
         return m
 
     def remove_subtree(self, key):
         n = len(key)
+        for k in [k for k in self.links if k[:n] == key]:
+            del self.links[k]
         for k in [k for k in self.files if k[:n] == key]:
             del self.files[k]
             self.execs.discard(k)
@@ -85,6 +95,7 @@ class Model:
     def _mkparents(self, key, upto):
         for i in range(1, upto):
             p = key[:i]
+            self.links.pop(p, None)
             if p in self.files:
                 del self.files[p]
                 self.execs.discard(p)
@@ -96,6 +107,7 @@ class Model:
         self._mkparents(key, len(key))
         if key in self.dirs:
             self.remove_subtree(key)
+        self.links.pop(key, None)
         self.files[key] = data
         self.execs.discard(key)
         if isexec:
@@ -106,6 +118,13 @@ class Model:
             return
         self._mkparents(key, len(key) + 1)
 
+    def put_link(self, key, data):
+        if not key:
+            return
+        self._mkparents(key, len(key))
+        self.remove_subtree(key)
+        self.links[key] = data
+
     def sorted_files(self):
         return sorted(self.files)
 
@@ -113,7 +132,8 @@ class Model:
         return sorted(self.dirs)
 
     def same(self, other):
-        return self.files == other.files and self.dirs == other.dirs and self.execs == other.execs
+        return (self.files == other.files and self.dirs == other.dirs and self.execs == other.execs
+                and self.links == other.links)
 
 
 def _flat(tree, prefix=()):
@@ -188,6 +208,21 @@ def apply_edits(model, edits):
         elif op == "chmod" and files:
             k = files[ed[1] % len(files)]
             (m.execs.add if ed[2] else m.execs.discard)(k)
+        elif op == "dangle":
+            base = dirs[ed[1] % len(dirs)]
+            m.put_link((*base, *ed[2]), None)
+        elif op == "dangle_at" and (files or len(dirs) > 1):
+            at = files + dirs[1:]  # replace a prior file or directory by a dangling symlink
+            m.put_link(at[ed[1] % len(at)], None)
+        elif op == "dangle_dir" and len(dirs) > 1:
+            m.put_link(dirs[1 + ed[1] % (len(dirs) - 1)], None)  # a directory becomes a dangling symlink
+        elif op == "outlink":
+            base = dirs[ed[1] % len(dirs)]
+            m.put_link((*base, *ed[2]), gen.content_bytes(ed[3]))
+        elif op == "outlink_at" and files:
+            k = files[ed[1] % len(files)]
+            # same bytes as the file it replaces (ed[2] is None) or other bytes
+            m.put_link(k, m.files[k] if ed[2] is None else gen.content_bytes(ed[2]))
         elif op == "wipe":
             m = Model()
     return m
@@ -235,6 +270,11 @@ EDIT = st.one_of(
     st.tuples(st.just("d2f"), IDX, CONTENT),
     st.tuples(st.just("rmtree"), IDX),
     st.tuples(st.just("chmod"), IDX, st.booleans()),
+    st.tuples(st.just("dangle"), IDX, SEGS13),
+    st.tuples(st.just("dangle_at"), IDX),
+    st.tuples(st.just("dangle_dir"), IDX),
+    st.tuples(st.just("outlink"), IDX, SEGS13, CONTENT),
+    st.tuples(st.just("outlink_at"), IDX, st.one_of(st.none(), CONTENT)),
 )
 SEL16 = st.sampled_from(range(16))
 FORM = st.sampled_from(["explicit"] * 5 + ["lazy"] * 4 + ["implicit"])
@@ -414,6 +454,20 @@ def materialise(model, root):
         os.chmod(p, 0o755 if k in model.execs else 0o644)
 
 
+def materialise_links(model, root, outside):
+    """Odd entries of the prior workspace: dangling symlinks and symlinks to files outside of it."""
+    os.makedirs(outside, exist_ok=True)
+    for n, k in enumerate(sorted(model.links)):
+        data = model.links[k]
+        os.makedirs(os.path.dirname(_join(root, k)), exist_ok=True)
+        if data is None:
+            os.symlink(os.path.join(outside, f"nowhere{n}"), _join(root, k))
+        else:
+            with open(os.path.join(outside, f"f{n}"), "wb") as f:
+                f.write(data)
+            os.symlink(os.path.join(outside, f"f{n}"), _join(root, k))
+
+
 def walk(root):
     """-> (files {key: bytes | None for unreadable}, dirs set, x-bit set), read through links."""
     files, dirs, xbits = {}, set(), set()
@@ -492,6 +546,10 @@ def run_case(case, ctx):  # noqa: C901, PLR0912, PLR0915
 
     T, lazy = target_model(case)
     prior = apply_edits(T, case["edits"])
+    # Odd prior entries: dangling symlinks (safe_walk/build_entries document them) and symlinks to
+    # outside files, at new paths or in place of any target file or directory - including a directory
+    # entry without a hash (explicit, or created while a .dir object is loaded), which did not converge
+    # before /repo e8fce0e. Symlinks to directories are outside the property's quantifier.
     form, links, delete = case["form"], list(case["links"]), case["delete"]
     old_hashes = case.get("old_hashes", True)  # absent in cases saved before the dimension existed
 
@@ -561,8 +619,9 @@ def run_case(case, ctx):  # noqa: C901, PLR0912, PLR0915
             gone = {oids[i % len(oids)] for i in case["missing"]}
             for oid in gone:
                 drop_object(odb, oid)
+        materialise_links(prior, ws, os.path.join(d, "outside"))
         pf, pd, px = walk(ws)
-        if pf != prior.files or pd != prior.dirs or not prior.execs <= px:
+        if pf != {**prior.files, **prior.links} or pd != prior.dirs or not prior.execs <= px:
             raise HarnessError("prior workspace does not match its model")
         failed_dirs = [n for n in lazy if ref.ref_tree_oid(lazy_listing(T, n)) in gone]
         gone_files = [k for k in T.sorted_files() if ref.ref_hash(T.files[k]) in gone]
@@ -571,7 +630,7 @@ def run_case(case, ctx):  # noqa: C901, PLR0912, PLR0915
         def needs_create(k):
             # relink also re-creates unchanged files, but which ones it treats as unchanged depends on
             # the x bits found in the workspace; only the files that certainly must be created count
-            return prior.files.get(k) != T.files[k]
+            return prior.files.get(k, prior.links.get(k)) != T.files[k]  # bytes are read through links
 
         expect_reported = {_join(ws, n) for n in failed_dirs}
         expect_reported |= {_join(ws, k) for k in gone_files
@@ -582,6 +641,7 @@ def run_case(case, ctx):  # noqa: C901, PLR0912, PLR0915
         if not delete:
             for k in T.sorted_files():
                 if k in prior.dirs and (any(f[:len(k)] == k for f in prior.files)
+                                        or any(f[:len(k)] == k for f in prior.links)
                                         or any(e[:len(k)] == k and e != k for e in prior.dirs)):
                     blocked.append(k)
 
@@ -589,7 +649,7 @@ def run_case(case, ctx):  # noqa: C901, PLR0912, PLR0915
         state = ops.make_state(ws, os.path.join(d, "state")) if case["state"] else None
         try:
             old = None
-            if not (case["old_none"] and not prior.files and not prior.dirs):
+            if not (case["old_none"] and not prior.files and not prior.dirs and not prior.links):
                 old = build_old(ws, state, root_entry=() in lazy, hashes=old_hashes)
             else:
                 classes.append("old=None")
@@ -703,14 +763,22 @@ def run_case(case, ctx):  # noqa: C901, PLR0912, PLR0915
     kind_change = bool(f2d or d2f)
     gone_dirs = [e for e in prior.dirs if e not in T.dirs]
     nested_rm = any(e[:len(g)] == g and e != g for g in gone_dirs for e in prior.dirs)
-    to_delete = bool(gone_dirs or [k for k in prior.files if k not in T.files])
-    nonempty = bool(prior.files or prior.dirs)
+    to_delete = bool(gone_dirs or [k for k in prior.files if k not in T.files]
+                     or [k for k in prior.links if k not in T.files])
+    nonempty = bool(prior.files or prior.dirs or prior.links)
     nontrivial = bool(nonempty and not prior.same(T) and to_delete and (kind_change or nested_rm))
     classes += [f"form={form}", "links=" + "+".join(links), "delete=" + ("on" if delete else "off"),
                 f"store={case['store']}"]
     for flag in ("relink", "update_meta", "state", "via_odb"):
         if case[flag]:
             classes.append(flag)
+    for k, v in prior.links.items():
+        kind = "dangling-link" if v is None else "outside-file-link"
+        where = ("at-target-file" if k in T.files else "at-lazy-dir" if k in lazy
+                 else "at-hashless-dir:inside-lazy" if k in T.dirs and under(k, lazy)
+                 else "at-hashless-dir:implicit" if k in T.dirs and form == "implicit"
+                 else "at-hashless-dir:explicit" if k in T.dirs else "not-in-target")
+        classes.append(f"prior:{kind}:{where}")
     if extra:
         classes.append(f"extra-stores={len(extra)}")
         if any(k in T.files for k, _ in extra):
